@@ -27,7 +27,7 @@ NOT_SLOTS = {"_value", "_expr", "_tasks", "_hash", "_manager", "_op_str"}
 def fresh_world():
     import xdeps
     data = {"a": 4, "b": 9, "i": 1, "k": "p", "n": {"x": 2, "y": 6}, "l": [5, 8, 13],
-            "o": T.PObj(p=3, q=11), "fn": _inc, "out": None, "p": 17, "q": 23}
+            "o": T.PObj(p=3, q=11), "fn": _inc, "out": None, "p": 17, "q": 23, -1: 31, -2: 37, "g": [[1, 2], [3, 4]]}
     m = xdeps.Manager()
     s = m.ref(data, "s")
     f = m.ref(T.Funcs(), "f")
@@ -36,6 +36,19 @@ def fresh_world():
 
 def _inc(v, w=0):
     return v + 1 + w
+
+
+def _grid(v):
+    return [[v, v + 1], [v + 2, v + 3]]
+
+
+class _Box:
+    def __init__(self, v):
+        self.v = [v, v * 2]
+
+
+def _boxed(v, w=0):
+    return _Box(v + w)
 
 
 def _pq(v):
@@ -114,7 +127,11 @@ def constructors(refs, s, f, m):
         elif issubclass(cls, refs.BinOpExpr):
             lit = 3
             table[cls] = [("_lhs", lambda x, c=cls: c(x, 3)), ("_rhs", lambda x, c=cls: c(3, x)),
-                          ("_lhs+_rhs", lambda x, c=cls: c(x, x))]
+                          ("_lhs+_rhs", lambda x, c=cls: c(x, x)),
+                          # two DIFFERENT operands whose structural hashes collide (hash(-1) == hash(-2) in CPython)
+                          ("_lhs/_rhs with colliding hashes (list)", lambda x, c=cls: c(s["l"][-1], s["l"][-2])),
+                          ("_lhs/_rhs with colliding hashes (container)", lambda x, c=cls: c(s[-1], s[-2])),
+                          ("_lhs/_rhs colliding below other nodes", lambda x, c=cls: c(refs.NegExpr(refs.MulExpr(s["l"][-1], 2)), refs.NegExpr(refs.MulExpr(s["l"][-2], 2))))]
         elif issubclass(cls, refs.UnaryOpExpr):
             table[cls] = [("_arg", lambda x, c=cls: c(x))]
         elif cls is refs.LiteralExpr:
@@ -136,9 +153,13 @@ def constructors(refs, s, f, m):
             table[cls] = [("_key", lambda x, c=cls: c(s["l"], refs.ModExpr(x, 3), m)),
                           ("_key(top-level owner)", lambda x, c=cls: c(s, refs.CallRef(_pq, (x,), ()), m)),
                           ("_owner", lambda x, c=cls: c(x, 0, m)),
-                          ("_owner+_key", lambda x, c=cls: c(x, x, m))]
+                          ("_owner+_key", lambda x, c=cls: c(x, x, m)),
+                          ("two item levels above a computed owner", lambda x, c=cls: c(c(refs.CallRef(_grid, (x,), ()), 1, m), 0, m)),
+                          ("item above attribute above a computed owner", lambda x, c=cls: c(refs.AttrRef(refs.CallRef(_boxed, (x,), {"w": x}), "v", m), 1, m)),
+                          ("three levels above an operator result", lambda x, c=cls: c(c(c(refs.AddExpr(s["g"], x), 0, m), 1, m), 0, m))]
         elif cls is refs.AttrRef:
             table[cls] = [("_owner", lambda x, c=cls: c(x, "real", m)),
+                          ("attribute above item above a computed owner", lambda x, c=cls: c(refs.ItemRef(refs.CallRef(_grid, (x,), ()), 1, m), "real", m)),
                           ("_key(computed)", lambda x, c=cls: c(s["o"], refs.CallRef(_pq, (x,), ()), m))]
         elif issubclass(cls, refs.Ref):
             table[cls] = [("top-level", lambda x, c=cls: c({"z": 1}, "top", m))]
@@ -263,6 +284,18 @@ def run_all(_chunk=None):
                         loc._set_value(old)
                 if defined:
                     m.unregister(s["out"])
+                # a dependant whose TARGET shares a non-top-level owner with locations the expression reads: the registered task
+                # must still carry every reported dependency (and is recomputed when the shared owner's member changes)
+                try:
+                    m.set_value(s["n"]["out"], e)
+                    task = m.tasks[s["n"]["out"]]
+                    if set(task.dependencies) != got:
+                        report(f"the task defined by the expression registers dependencies {sorted(map(str, task.dependencies))}, "
+                               f"the expression reports {sorted(map(str, got))}: {label}", es)
+                    m.unregister(s["n"]["out"])
+                    del data["n"]["out"]
+                except Exception:  # noqa  (unevaluable expression: nothing to register)
+                    data["n"].pop("out", None)
     return {"evaluations": ev, "distinct": len(distinct), "issues": issues, "uncovered_classes": uncovered,
             "abstract_classes": abstract, "classes_found": len(classes),
             "concrete_classes_covered": len([c for c in classes if isinstance(table[c], list)]),
